@@ -146,8 +146,7 @@ static qtreetbl_obj_t *find_obj(qtreetbl_t *tbl, const void *name,
 static qtreetbl_obj_t *new_obj(bool red, const void *name, size_t namesize,
                                const void *data, size_t datasize);
 static qtreetbl_obj_t *put_obj(qtreetbl_t *tbl, qtreetbl_obj_t *obj,
-                               const void *name, size_t namesize,
-                               const void *data, size_t datasize);
+                               qtreetbl_obj_t *newobj);
 static qtreetbl_obj_t *remove_obj(qtreetbl_t *tbl, qtreetbl_obj_t *obj,
                                   const void *name, size_t namesize);
 static void free_objs(qtreetbl_obj_t *obj);
@@ -342,13 +341,31 @@ bool qtreetbl_putobj(qtreetbl_t *tbl, const void *name, size_t namesize,
     }
 
     qtreetbl_lock(tbl);
-    errno = 0;
-    qtreetbl_obj_t *root = put_obj(tbl, tbl->root, name, namesize, data,
-                                   datasize);
-    if (root == NULL || errno == ENOMEM) {
+    qtreetbl_obj_t *obj = find_obj(tbl, name, namesize);
+    if (obj != NULL) {
+        // existing key found, replace the value only.
+        void *copydata = qmemdup(data, datasize);
+        if (copydata == NULL && data != NULL && datasize > 0) {
+            qtreetbl_unlock(tbl);
+            errno = ENOMEM;
+            return false;
+        }
+        free(obj->data);
+        obj->data = copydata;
+        obj->datasize = datasize;
         qtreetbl_unlock(tbl);
+        return true;
+    }
+
+    // allocate the new node before touching the tree, so that the tree is
+    // never left half-updated when memory runs out.
+    obj = new_obj(true, name, namesize, data, datasize);
+    if (obj == NULL) {
+        qtreetbl_unlock(tbl);
+        errno = ENOMEM;
         return false;
     }
+    qtreetbl_obj_t *root = put_obj(tbl, tbl->root, obj);
     root->red = false;
     tbl->root = root;
     qtreetbl_unlock(tbl);
@@ -1172,7 +1189,8 @@ static qtreetbl_obj_t *new_obj(bool red, const void *name, size_t namesize,
     void *copyname = qmemdup(name, namesize);
     void *copydata = qmemdup(data, datasize);
 
-    if (obj == NULL || copyname == NULL) {
+    if (obj == NULL || copyname == NULL
+        || (copydata == NULL && data != NULL && datasize > 0)) {
         errno = ENOMEM;
         free(obj);
         free(copyname);
@@ -1190,11 +1208,11 @@ static qtreetbl_obj_t *new_obj(bool red, const void *name, size_t namesize,
 }
 
 static qtreetbl_obj_t *put_obj(qtreetbl_t *tbl, qtreetbl_obj_t *obj,
-                               const void *name, size_t namesize,
-                               const void *data, size_t datasize) {
+                               qtreetbl_obj_t *newobj) {
     if (obj == NULL) {
+        // link the node prepared by the caller. (the key is not in the tree)
         tbl->num++;
-        return new_obj(true, name, namesize, data, datasize);
+        return newobj;
     }
 
 #ifdef LLRB234
@@ -1204,18 +1222,12 @@ static qtreetbl_obj_t *put_obj(qtreetbl_t *tbl, qtreetbl_obj_t *obj,
     }
 #endif
 
-    int cmp = tbl->compare(name, namesize, obj->name, obj->namesize);
-    if (cmp == 0) {  // existing key found
-        void *copydata = qmemdup(data, datasize);
-        if (copydata != NULL || data == NULL || datasize == 0) {
-            free(obj->data);
-            obj->data = copydata;
-            obj->datasize = datasize;
-        }
-    } else if (cmp < 0) {
-        obj->left = put_obj(tbl, obj->left, name, namesize, data, datasize);
+    int cmp = tbl->compare(newobj->name, newobj->namesize,
+                           obj->name, obj->namesize);
+    if (cmp < 0) {
+        obj->left = put_obj(tbl, obj->left, newobj);
     } else {
-        obj->right = put_obj(tbl, obj->right, name, namesize, data, datasize);
+        obj->right = put_obj(tbl, obj->right, newobj);
     }
 
     // fix right-leaning reds on the way up
